@@ -451,6 +451,9 @@ Proof. induction dn as [|a dn IH]; cbn [length app replace_nth]; [reflexivity|].
 Lemma nth_app_here dn z todo (dflt : val) : nth (length dn) (dn ++ z :: todo) dflt = z.
 Proof. rewrite app_nth2 by lia. now rewrite Nat.sub_diag. Qed.
 
+Lemma Forall2_len {A B} (R : A -> B -> Prop) l1 l2 : Forall2 R l1 l2 -> length l1 = length l2.
+Proof. induction 1; cbn [length]; congruence. Qed.
+
 (* ================= the struct-level theorem ================= *)
 Section RT.
 Variable e : env.
@@ -633,5 +636,193 @@ Proof.
     rewrite (HF fds vs ps' Js (Some (ftag fd)) tail); try assumption; [reflexivity| |].
     + intros fd' Hin. apply Htail. now right.
     + unfold fuel_ok. rewrite app_length. lia.
+Qed.
+
+Lemma fuel_sub J bs' f : (2 * length (ser_fields J ++ bs') + 3 <= f)%nat -> exists f', (f - length J = S f')%nat /\ (2 * length bs' + 2 <= f')%nat.
+Proof.
+  intros H. rewrite app_length in H. pose proof (ser_fields_length J). exists (f - length J - 1)%nat. lia.
+Qed.
+
+Lemma step_var_scalar f tag req t d v prior lo J rest :
+  scalar_ty t = true -> sc_typed t v -> tag < 256 -> prior_ok e t d prior -> junk_ok lo tag J ->
+  (req = true \/ follows tag rest) ->
+  fuel_ok (need v) (ser_fields J ++ enc_var e tag req t d v ++ rest) (S f) ->
+  dec_var (S f) e tag req t prior (ser_fields J ++ enc_var e tag req t d v ++ rest) = DOk (norm e t req d v) rest.
+Proof.
+  intros Hsc Hty Htag Hp HJ Hfo Hf. unfold fuel_ok in Hf. pose proof (need_ge v).
+  rewrite dec_var_scalar by assumption. rewrite (dec_scalar_junk J f lo) by (try assumption; lia).
+  destruct (fuel_sub J (enc_var e tag req t d v ++ rest) f ltac:(lia)) as (f' & -> & Hf').
+  rewrite norm_scalar by assumption. rewrite enc_var_scalar in * by assumption.
+  destruct (omit t req d v) eqn:Eo.
+  - cbn [app]. assert (req = false) by (unfold omit in Eo; destruct t; destruct req; cbn in Eo; congruence). subst req.
+    destruct Hfo as [|Hfo]; [discriminate|]. rewrite dec_scalar_absent by assumption. f_equal.
+    unfold prior_ok in Hp. destruct d; [assumption|]. now apply (zlike_scalar e).
+  - rewrite <- (dec_var_scalar (S f') e) by assumption. now apply scalar_member_roundtrip.
+Qed.
+
+Ltac sf := first [reflexivity | assumption | lia].
+
+Lemma step_var_bytes f tag req d s prior lo J rest :
+  N.of_nat (length s) < 2147483648 -> tag < 256 -> zlike e (TVec TI8) prior -> junk_ok lo tag J ->
+  (req = true \/ follows tag rest) ->
+  fuel_ok 3 (ser_fields J ++ enc_var e tag req (TVec TI8) d (VBytes s) ++ rest) (S f) ->
+  dec_var (S f) e tag req (TVec TI8) prior (ser_fields J ++ enc_var e tag req (TVec TI8) d (VBytes s) ++ rest) = DOk (VBytes s) rest.
+Proof.
+  intros Hs Htag Hp HJ Hfo Hf. unfold fuel_ok in Hf. apply zlike_vec in Hp. subst prior.
+  rewrite dec_var_vec. rewrite (seek_junk J f lo) by (try assumption; lia).
+  destruct (fuel_sub J (enc_var e tag req (TVec TI8) d (VBytes s) ++ rest) f ltac:(lia)) as (f' & -> & Hf').
+  cbn [enc_var] in *.
+  destruct (negb req && match s with [] => true | _ => false end) eqn:Eo.
+  - destruct req; [discriminate|]. destruct s; [|discriminate]. cbn [app].
+    destruct Hfo as [|Hfo]; [discriminate|]. now rewrite seek_stop by assumption.
+  - rewrite <- !app_assoc. rewrite seek_first by sf.
+    change (tSIMPLE =? tLIST) with false. change (tSIMPLE =? tSIMPLE) with true. cbv iota. cbn [is_byte].
+    unfold skip_to. destruct f as [|f0]; [lia|]. rewrite seek_first by sf.
+    change (tBYTE =? tBYTE) with true. cbv iota.
+    rewrite read_count_len by assumption.
+    destruct s as [|a s'].
+    + reflexivity.
+    + rewrite read_slice_app by discriminate. reflexivity.
+Qed.
+
+Lemma step_var_vec f tag req d x xs prior lo J rest : P_elems f ->
+  x <> TI8 -> N.of_nat (length xs) < 2147483648 -> Forall (has_type e x) xs -> ty_nest k e x = true ->
+  tag < 256 -> zlike e (TVec x) prior -> junk_ok lo tag J -> (req = true \/ follows tag rest) ->
+  fuel_ok (need (VList xs)) (ser_fields J ++ enc_var e tag req (TVec x) d (VList xs) ++ rest) (S f) ->
+  dec_var (S f) e tag req (TVec x) prior (ser_fields J ++ enc_var e tag req (TVec x) d (VList xs) ++ rest)
+  = DOk (VList (norm_elems e x xs)) rest.
+Proof.
+  intros HE Hx Hlen Hty Hn Htag Hp HJ Hfo Hf. unfold fuel_ok in Hf. rewrite need_VList in Hf.
+  assert (prior = VList []) by (apply zlike_vec in Hp; destruct x; congruence). subst prior.
+  rewrite dec_var_vec. rewrite (seek_junk J f lo) by (try assumption; lia).
+  destruct (fuel_sub J (enc_var e tag req (TVec x) d (VList xs) ++ rest) f ltac:(lia)) as (f' & -> & Hf').
+  rewrite enc_var_list in *.
+  destruct (negb req && match xs with [] => true | _ => false end) eqn:Eo.
+  - destruct req; [discriminate|]. destruct xs; [|discriminate]. cbn [app].
+    destruct Hfo as [|Hfo]; [discriminate|]. now rewrite seek_stop by assumption.
+  - rewrite <- !app_assoc in *. rewrite seek_first by sf.
+    change (tLIST =? tLIST) with true. cbv iota.
+    rewrite read_count_len by assumption.
+    destruct (Z.of_nat (length xs) <? 0)%Z eqn:E1; [lia|].
+    pose proof (enc_elems_length e x xs Hty) as Hel.
+    destruct (Z.of_nat (length (enc_elems e x xs ++ rest)) <? Z.of_nat (length xs))%Z eqn:E2; [rewrite app_length in E2; lia|].
+    rewrite HE; try assumption.
+    + destruct x; try reflexivity. congruence.
+    + unfold fuel_ok. rewrite !app_length in *. lia.
+Qed.
+
+Lemma step_var_arr f tag req d n x xs prior lo J rest : P_arr f ->
+  length xs = n -> (0 < n)%nat -> N.of_nat n < 2147483648 -> Forall (has_type e x) xs -> ty_nest k e x = true ->
+  tag < 256 -> zlike e (TArr n x) prior -> junk_ok lo tag J ->
+  fuel_ok (need (VList xs)) (ser_fields J ++ enc_var e tag req (TArr n x) d (VList xs) ++ rest) (S f) ->
+  dec_var (S f) e tag req (TArr n x) prior (ser_fields J ++ enc_var e tag req (TArr n x) d (VList xs) ++ rest)
+  = DOk (VList (norm_elems e x xs)) rest.
+Proof.
+  intros HA Hl Hpos Hlen Hty Hn Htag Hp HJ Hf. unfold fuel_ok in Hf. rewrite need_VList in Hf.
+  inversion Hp as [? Hb|? ? l Hll Hz|]; subst; [discriminate|].
+  rewrite dec_var_arr. rewrite (seek_junk J f lo) by (try assumption; lia).
+  destruct (fuel_sub J (enc_var e tag req (TArr (length xs) x) d (VList xs) ++ rest) f ltac:(lia)) as (f' & -> & Hf').
+  rewrite enc_var_arr in *.
+  destruct (negb req && match xs with [] => true | _ => false end) eqn:Eo.
+  - destruct xs; [cbn [length] in Hpos; lia|]. destruct req; discriminate.
+  - rewrite <- !app_assoc in *. rewrite seek_first by sf.
+    change (tLIST =? tLIST) with true. cbv iota.
+    rewrite read_count_len by (rewrite <- Hll in Hlen; lia).
+    pose proof (HA x (length xs) [] l xs rest) as H1. cbn [length app] in H1. rewrite H1; try assumption; try reflexivity.
+    unfold fuel_ok. rewrite !app_length in *. lia.
+Qed.
+
+Lemma step_var_map f tag req d kt vt kvs prior lo J rest : P_entries f ->
+  N.of_nat (length kvs) < 2147483648 -> Forall (fun p => has_type e kt (fst p) /\ has_type e vt (snd p)) kvs ->
+  ty_nest k e kt = true -> ty_nest k e vt = true ->
+  tag < 256 -> zlike e (TMap kt vt) prior -> junk_ok lo tag J -> (req = true \/ follows tag rest) ->
+  fuel_ok (need (VMap kvs)) (ser_fields J ++ enc_var e tag req (TMap kt vt) d (VMap kvs) ++ rest) (S f) ->
+  dec_var (S f) e tag req (TMap kt vt) prior (ser_fields J ++ enc_var e tag req (TMap kt vt) d (VMap kvs) ++ rest)
+  = DOk (VMap (norm_entries e kt vt kvs)) rest.
+Proof.
+  intros HE Hlen Hty Hnk Hnv Htag Hp HJ Hfo Hf. unfold fuel_ok in Hf. rewrite need_VMap in Hf.
+  apply zlike_map in Hp. subst prior.
+  rewrite dec_var_map. unfold skip_to. rewrite (seek_junk J f lo) by (try assumption; lia).
+  destruct (fuel_sub J (enc_var e tag req (TMap kt vt) d (VMap kvs) ++ rest) f ltac:(lia)) as (f' & -> & Hf').
+  rewrite enc_var_map in *.
+  destruct (negb req && match kvs with [] => true | _ => false end) eqn:Eo.
+  - destruct req; [discriminate|]. destruct kvs; [|discriminate]. cbn [app].
+    destruct Hfo as [|Hfo]; [discriminate|]. now rewrite seek_stop by assumption.
+  - rewrite <- !app_assoc in *. rewrite seek_first by sf.
+    change (tMAP =? tMAP) with true. cbv iota.
+    rewrite read_count_len by assumption.
+    rewrite HE; try assumption; [reflexivity|].
+    unfold fuel_ok. rewrite !app_length in *. lia.
+Qed.
+
+Lemma encx_nil vs : forall fds, length fds = length vs ->
+  encx_fields e vs fds (map (fun _ => []) fds) = enc_fields e vs fds.
+Proof.
+  induction vs as [|x vs IH]; intros [|fd fds] Hl; try discriminate; [reflexivity|].
+  cbn [map encx_fields enc_fields ser_fields app]. rewrite IH by (cbn [length] in Hl; lia). reflexivity.
+Qed.
+Lemma junks_nil : forall fds lo, junks_ok lo fds (map (fun _ => []) fds).
+Proof. induction fds as [|fd fds IH]; intros lo; cbn [map junks_ok]; [exact I|]. split; [apply junk_nil|apply IH]. Qed.
+Lemma members_ok sid : Forall member_ok (fields_of e sid).
+Proof.
+  apply Forall_forall. intros fd Hin. split; [now apply (wf_nest k e Hwf sid)|now apply (wf_def k e Hwf sid)].
+Qed.
+Lemma skip_to_end_se f d rest : skip_to_end (S (S f)) d (head tSE 0 ++ rest) = (SOk, rest).
+Proof. reflexivity. Qed.
+Lemma follows_se t rest : follows t (head tSE 0 ++ rest).
+Proof. right. exists tSE, 0, rest. repeat split; try reflexivity. now left. Qed.
+
+Lemma step_var_struct f tag req d sid vs prior lo J rest : P_fields f ->
+  Forall2 (fun fd x => has_type e (fty fd) x) (fields_of e sid) vs ->
+  tag < 256 -> zlike e (TStruct sid) prior -> junk_ok lo tag J ->
+  fuel_ok (need (VStruct vs)) (ser_fields J ++ enc_var e tag req (TStruct sid) d (VStruct vs) ++ rest) (S f) ->
+  dec_var (S f) e tag req (TStruct sid) prior (ser_fields J ++ enc_var e tag req (TStruct sid) d (VStruct vs) ++ rest)
+  = DOk (VStruct (norm_fields e vs (fields_of e sid))) rest.
+Proof.
+  intros HF Hty Htag Hp HJ Hf. unfold fuel_ok in Hf. rewrite need_VStruct in Hf.
+  rewrite dec_var_struct. cbv zeta. unfold skip_to. rewrite (seek_junk J f lo) by (try assumption; lia).
+  destruct (fuel_sub J (enc_var e tag req (TStruct sid) d (VStruct vs) ++ rest) f ltac:(lia)) as (f' & -> & Hf').
+  rewrite enc_var_struct in *. rewrite <- !app_assoc in *. rewrite seek_first by sf.
+  change (tSB =? tSB) with true. cbv iota.
+  pose proof (need_list_ge vs).
+  destruct f as [|f0]; [lia|]. destruct (struct_priors e f0 sid prior Hp) as (ps & -> & Hps).
+  rewrite <- (encx_nil vs (fields_of e sid)) by (now apply Forall2_len in Hty).
+  rewrite (HF (fields_of e sid) vs ps (map (fun _ => []) (fields_of e sid)) None (head tSE 0 ++ rest)); try assumption.
+  - destruct f0 as [|f1]; [lia|]. now rewrite skip_to_end_se.
+  - apply members_ok.
+  - apply (wf_asc k e Hwf).
+  - apply junks_nil.
+  - intros fd _. apply follows_se.
+  - unfold fuel_ok. rewrite encx_nil by (now apply Forall2_len in Hty). rewrite !app_length in *. lia.
+Qed.
+
+Lemma step_var f : P_elems f -> P_arr f -> P_entries f -> P_fields f -> P_var (S f).
+Proof.
+  intros HE HA HM HF tag req t d v prior lo J rest Hty Hn Htag Hd Hp HJ Hfo Hf.
+  inversion Hty; subst.
+  - rewrite (step_var_scalar f tag req t d v prior lo J rest); auto.
+  - assert (d = None) by (destruct d; [specialize (Hd ltac:(discriminate)); discriminate|reflexivity]). subst d.
+    apply (step_var_bytes f tag req None s prior lo J rest); auto.
+  - assert (d = None) by (destruct d; [specialize (Hd ltac:(discriminate)); discriminate|reflexivity]). subst d.
+    rewrite norm_vec. apply (step_var_vec f tag req None x xs prior lo J rest); auto. now apply ty_nest_vec.
+  - assert (d = None) by (destruct d; [specialize (Hd ltac:(discriminate)); discriminate|reflexivity]). subst d.
+    rewrite norm_arr. apply (step_var_arr f tag req None (length xs) x xs prior lo J rest); auto. now apply ty_nest_arr in Hn.
+  - assert (d = None) by (destruct d; [specialize (Hd ltac:(discriminate)); discriminate|reflexivity]). subst d.
+    rewrite norm_map. apply ty_nest_map in Hn. destruct Hn.
+    apply (step_var_map f tag req None kt vt kvs prior lo J rest); auto.
+  - assert (d = None) by (destruct d; [specialize (Hd ltac:(discriminate)); discriminate|reflexivity]). subst d.
+    rewrite norm_str. apply (step_var_struct f tag req None sid vs prior lo J rest); auto.
+Qed.
+
+Theorem rt_all : forall fuel, P_var fuel /\ P_elems fuel /\ P_arr fuel /\ P_entries fuel /\ P_fields fuel.
+Proof.
+  induction fuel as [|f (HV & HE & HA & HM & HF)].
+  - repeat split; intro; intros; unfold fuel_ok in *; lia.
+  - repeat split.
+    + now apply step_var.
+    + now apply step_elems.
+    + now apply step_arr.
+    + now apply step_entries.
+    + now apply step_fields.
 Qed.
 End RT.
